@@ -370,6 +370,44 @@ def options_oracle(game, cfg: Dict) -> List[str]:
     return bad
 
 
+def agents_oracle(game, cfg: Dict) -> List[str]:
+    """Parts of `agents:` that are outside the Lean model, as declared-vs-built facts: a `custom` observation space is built with
+    exactly the declared component labels (and its gym space has exactly those keys); every declared `shared-reward` component
+    names the declared agent, has its callback, and the reward calculation order lists every agent once with the agent whose
+    reward is shared BEFORE the one that uses it."""
+    bad = []
+    order = list(getattr(game, "_reward_calculation_order", []) or [])
+    refs = [a.get("ref") for a in cfg.get("agents") or []]
+    if order and sorted(order) != sorted(refs):
+        bad.append(f"agents reward-order built={order} declared={refs}")
+    for a in cfg.get("agents") or []:
+        ag = game.agents.get(a.get("ref"))
+        if ag is None:
+            bad.append(f"agents missing {a.get('ref')}")
+            continue
+        ob = a.get("observation_space") or {}
+        if ob.get("type") == "custom":
+            want = [c.get("label") for c in (ob.get("options") or {}).get("components") or []]
+            comps = getattr(ag.observation_manager.obs, "components", None)
+            got = list(comps.keys()) if isinstance(comps, dict) else None
+            if got is not None and got != want:
+                bad.append(f"agents observation-components {a['ref']} built={got} declared={want}")
+            sp = getattr(ag.observation_manager.space, "spaces", None)
+            if sp is not None and sorted(sp.keys()) != sorted(want):
+                bad.append(f"agents observation-space-keys {a['ref']} built={sorted(sp.keys())} declared={sorted(want)}")
+        for i, d in enumerate((a.get("reward_function") or {}).get("reward_components") or []):
+            if d.get("type") in ("shared-reward", "SHARED_REWARD"):
+                comp = ag.reward_function.reward_components[i][0]
+                tgt = (d.get("options") or {}).get("agent_name")
+                if getattr(comp.config, "agent_name", None) != tgt:
+                    bad.append(f"agents shared-reward {a['ref']} {i} built={getattr(comp.config, 'agent_name', None)} declared={tgt}")
+                if not callable(getattr(comp, "callback", None)):
+                    bad.append(f"agents shared-reward-callback {a['ref']} {i} unset")
+                if order and tgt in order and a["ref"] in order and order.index(tgt) > order.index(a["ref"]):
+                    bad.append(f"agents shared-reward-order {a['ref']} evaluated before {tgt}")
+    return bad
+
+
 def files_extra(game, cfg: Dict) -> List[str]:
     """Folders/files that exist although the file does not declare them (created by software installs); evidence only."""
     decl = {n["hostname"]: n for n in cfg.get("simulation", {}).get("network", {}).get("nodes", [])}
